@@ -166,6 +166,14 @@ def r4(ctx):
             ctx.ob(f"{key.rsplit('::',1)[1]} Ok@bb{oks.index(ob)}", k2.dominated_by_any(body, ob, calls) or ob in calls,
                    f"{key} can return Ok(board) without having refreshed pinned/checkers ({T.short(upd)}): they would be stale (empty)", site=body.get("def_span"),
                    sample={"ok_block": ob, "refresh_calls": calls})
+    # the refresh looks up the own king (unchecked): it may only run on a position validate() has accepted
+    for key in CONSTRUCTORS:
+        body = P.body(key)
+        vcalls = [b for b, _ in k2.call_sites(P, key, "Board::validate")]
+        rcalls = [b for b, _ in k2.call_sites(P, key, upd)]
+        ctx.ob(f"{key.rsplit('::',1)[1]} validated first", bool(vcalls) and bool(rcalls) and all(k2.dominated_by_any(body, rb, vcalls) for rb in rcalls),
+               f"{key} runs {T.short(upd)} (which looks up the king of the side to move without a check) before, or without, Board::validate", site=body.get("def_span"),
+               sample={"validate_calls": vcalls, "refresh_calls": rcalls})
     # the refresh starts from empty sets (unconditionally): it does not build on what the board held before
     body = P.body(upd)
     ctx.used_body(upd)
